@@ -244,11 +244,19 @@ def run(rep, tier, seed, selftest):
             tag = None
             mine = [x for x in runs if (x["died"] != "") == (problem == "died") and (problem != "rejected" or not x["ok"])]
             if problem == "rejected" and "pub-definition-needs-invisible" in b["tags"] and not b["closed"] and \
-                    all(any(d[0] in (401, 402, 405) for d in x["diags"]) for x in mine):
+                    all(any(d[0] in (401, 402, 405, 583) for d in x["diags"]) for x in mine):
+                # (583: an array literal whose elements mention the invisible constant has no type any more)
                 tag = "pub-definition-needs-invisible"
             if problem == "died" and "imported-nested-structure" in b["tags"] and \
                     all(any(sig in x["died"] for sig in LLVM_VERIFIER) for x in mine):
                 tag = "imported-nested-structure"
+            # private structures of one NAME in two files (extended splits): the same shared table of named LLVM types
+            if problem == "died" and tag is None and "same-named-private-structures" in b["tags"] and \
+                    all(any(sig in x["died"] for sig in LLVM_VERIFIER) for x in mine):
+                tag = "same-named-private-structures"
+            # ... or, in other file orders, a program that runs with the layout of the other file's structure
+            if problem == "differs" and tag is None and "same-named-private-structures" in b["tags"]:
+                tag = "same-named-private-structures"
             rep.violation("split/" + problem,
                           "%sseed=%s prog=%s closed=%s" % ("[%s] " % tag if tag else "", b["seed"], b["prog"], str(b["closed"]).lower()),
                           {"part": "split", "seed": b["seed"], "prog": b["prog"], "closed": b["closed"], "nmods": b["nmods"],
